@@ -77,6 +77,21 @@ Post(c, d, h) == [pages |-> [i \in 1..Len(PageIds(c, d)) |-> PageOut(PageIds(c, 
                   hdr |-> <<h.lastKey, h.ptRoot, h.nx, h.lsn>>]
 AbsOut(a) == LET ts == SetToSortSeq(DOMAIN a, LAMBDA x, y : TRUE) IN [i \in 1..Len(ts) |-> [t |-> ts[i], rows |-> a[ts[i]]]]
 
+\* the specification's own pages hold the promise a, and everything the harness looks at (catalog, tree shapes, row
+\* ids, room for the next allocation) is in order
+Healthy(c, d, h, a) ==
+  LET S == [c |-> c, nx |-> h.nx, h |-> h]
+      sv == SchemaView(c, d, h)
+      names == {x.v.a : x \in {y \in SeqToSet(CatRows(S, d)) : ~y.d /\ y.v.tag = "P"}}
+  IN /\ PageView(c, d, h) = a
+     /\ "sys_schema" \in names
+     /\ \A t \in DOMAIN a : SelectSeq(sv, LAMBDA x : x[1] = t) = [i \in 1..Len(ColsOf(t)) |-> <<t, ColsOf(t)[i][1], ColsOf(t)[i][2]>>]
+     /\ \A i \in 1..Len(sv) : sv[i][1] \in (DOMAIN a) \cup {"sys_pages", "sys_schema"}
+     /\ TreeOK(c, d, h.ptRoot)
+     /\ \A t \in names \ {"sys_pages"} : TreeOK(c, d, RootOf(S, d, t))
+     /\ \A k \in IdsView(c, d, h) : k <= h.lastKey
+     /\ \A p \in (DOMAIN d) \cup (DOMAIN c) : p < h.nx
+
 Selected == CASE EmitSel = "all" -> TRUE
               [] EmitSel = "crash" -> \E i \in 1..Len(hist') : hist'[i].a = "crash"
               [] EmitSel = "crash-wal" -> \E i \in 1..Len(hist') : hist'[i].a = "crash" /\ hist'[i].at = "wal"
@@ -91,6 +106,11 @@ Emit == (EmitOn /\ out'.k # "none" /\ Selected /\ (EmitMod = 1 \/ RandomElement(
                                   post |-> Post(cache', disk', mhdr'),
                                   wal |-> Len(walD'),
                                   taint |-> SetToSortSeq(taint', LAMBDA x, y : TRUE),
+                                  \* on a path through a known-defective situation: do the specification's own pages still
+                                  \* hold an allowed state?  (FALSE = the specification itself predicts the damage here)
+                                  pvok |-> IF taint' = {} THEN TRUE
+                                           ELSE IF out'.k \in {"dead", "lost"} THEN FALSE
+                                           ELSE Healthy(cache', disk', mhdr', abs'),
                                   scope |-> scope'])>>)
 
 View == <<disk, dhdr, cache, mhdr, walD, torn, walU, pc, abs, pend, cands, taint, scope, cnt>>
